@@ -241,7 +241,10 @@ def run(ctx):
     def report(cls, ops, msg):
         small = shrink(cls, ops)
         msg2 = oracle(cls, small) or msg
-        ctx.violation(f"oracle/{cls}/{msg2.split(':', 1)[-1].strip()[:60]}", msg2,
+        import re
+        words = re.sub(r"\([^)]*\)|\[[^\]]*\]|'[^']*'|[^A-Za-z ]", " ", msg2.split(":", 1)[-1]).split()
+        cat = "-".join(w for w in words if len(w) > 2 and not (len(w) <= 2 or w in NAMES))[:40]
+        ctx.violation(f"oracle/{cat}", msg2,
                       {"class": cls, "history": small, "python": "props.c15.oracle(cls, history)"}, True)
 
     # 1. exhaustive short histories on the implementation (oracle)
@@ -291,6 +294,8 @@ def run(ctx):
     mism, err = ctx.coq_mismatches("hist", HEADER, "gcase", "check_gcase", terms)
     for idx, tags in mism:
         cls, ops, impl = cases[idx]
+        if ctx.has_concrete():
+            break       # the search already produced a concrete failing input for this breakage
         model = ctx.coq_eval(HEADER, f"map observe (trace {CLS_LIT[cls]} {lit.lst([op_lit(o) for o in ops])} empty_graph)")
         ctx.violation(f"correspondence/{cls}/tags{tags}",
                       f"model and implementation disagree on a history (fields {tags}: 1 names, 2 nodes, 3 arcs, 4 result, 5 length); "
